@@ -70,7 +70,7 @@ def c09_scripts(ctx):
     sc = mixed_scripts(ctx, n, policy_p=0.7)
     sc += tfile_scripts(ctx, modes=("whole", "rand"))
     sc += handover_scripts(ctx, 300 if ctx.tier == "quick" else 3000)
-    sc += lib.load_fuzz_corpus(ctx, 600, "C09")
+    sc += lib.load_fuzz_corpus(ctx, 1500, "C09")
     return sc
 
 
@@ -144,7 +144,7 @@ def c05_scripts(ctx):
     sc = mixed_scripts(ctx, n, policy_p=0.4)
     sc += tfile_scripts(ctx, modes=("whole", "bytes", "rand"))
     sc += handover_scripts(ctx, 250 if ctx.tier == "quick" else 2500)
-    sc += lib.load_fuzz_corpus(ctx, 600, "C05")
+    sc += lib.load_fuzz_corpus(ctx, 1500, "C05")
     return sc
 
 
@@ -341,7 +341,7 @@ def c06_scripts(ctx):
         items = [">" + traffic.hx(head + body[:k]), "g>%d" % gl] + [">" + traffic.hx(x) for x in traffic.chunkings(body[k + gl:], rng, rng.choice(("whole", "rand")))]
         items += ["<" + traffic.hx(b"HTTP/1.1 200 OK\r\nContent-Length: %d\r\n\r\n" % len(rbody) + rbody[:rk]), "g<1", "<" + traffic.hx(rbody[rk + 1:])]
         acc.append(traffic.script(rng.choice(("respdecomp=0,urlenc=1,mpart=1", "respdecomp=0", "p=IDS,respdecomp=0,urlenc=1", "respdecomp=0,mpart=1")), "-", items))
-    acc += [s for s in lib.load_fuzz_corpus(ctx, 500, "C06") if s[0].endswith(" -")]     # accounting: without callback policies
+    acc += [s for s in lib.load_fuzz_corpus(ctx, 1500, "C06") if s[0].endswith(" -")]     # accounting: without callback policies
     return out, meta, acc
 
 
@@ -1240,9 +1240,26 @@ def c19_scripts(ctx):
         K = rng.randint(2, 8)
         cfg = rng.choice(("respdecomp=0", "p=IDS,respdecomp=0,urlenc=1", "p=APACHE_2,respdecomp=0", "respdecomp=0,autodestroy=1"))
         per = []
+        shared_stress = gi % 3 == 2
+        if shared_stress:
+            # requests that drive the helper functions most likely to grow a cache or a static buffer: best-fit / UTF-8 / %u path decoding
+            # with repeated mapped and unmapped code points, base64 credentials, cookies, urlencoded parameters, log messages
+            cfg = rng.choice(("p=IDS,respdecomp=0,urlenc=1", "p=IIS_6_0,respdecomp=0,urlenc=1", "p=IDS,respdecomp=0,urlenc=1,mpart=1"))
         for k in range(K):
             reqs, ress, rq, rs = traffic.gen_exchange(rng, opts=OPTS)
             R, S = b"".join(rq), b"".join(rs)
+            if shared_stress:
+                import base64
+                import c12
+                toks = c12.escape_tokens()
+                wide = [t for t in toks if len(t) >= 2 and t[0] >= 0xc2] + [b"%u4e2d", b"%u0100", b"%uff21", b"\xe4\xb8\xad", b"\xd1\x81", b"\xc4\x80"]
+                path = b"/" + b"".join(rng.choice(wide) * rng.randint(1, 2) if rng.random() < 0.6 else rng.choice(toks) for _ in range(rng.randint(1, 5)))
+                path = path.replace(b" ", b"%20").replace(b"\r", b"%0d").replace(b"\n", b"%0a").replace(b"\x00", b"%00").replace(b"\t", b"%09")
+                cred = base64.b64encode(bytes(rng.choice(b"abcXYZ:019") for _ in range(rng.randint(3, 12))))
+                R = (b"POST " + path + b"?q=" + rng.choice(toks).replace(b" ", b"+") + b" HTTP/1.1\r\nHost: h%d.example\r\nAuthorization: Basic " % k + cred +
+                     b"\r\nCookie: a=%d; b=c\r\nContent-Type: application/x-www-form-urlencoded\r\nContent-Length: 8\r\n\r\nx=%%u0041&" % k)
+                R = R[:R.rindex(b"\r\n\r\n") + 4] + b"x=%4" + bytes([0x30 + k % 10]) + b"&z="
+                S = b"HTTP/1.1 200 OK\r\nContent-Length: 2\r\n\r\nok"
             if rng.random() < 0.4:
                 R = traffic.mutate(R, rng)
             if rng.random() < 0.4:
